@@ -62,6 +62,10 @@ func main() {
 		l.Trusted = rules.TrustedBase
 		for i, cfg := range configs {
 			c := core.Load(cfg)
+			if d := os.Getenv("VDUMP"); d != "" {
+				rules.DumpSkeleton(c, d)
+				os.Exit(0)
+			}
 			if i == 0 {
 				chk(c, l)
 				for k, v := range c.Units {
